@@ -343,6 +343,9 @@ class Cid(object):
 
         if self._data_format is None:
             raise errors.InterfaceError("data format must be specified before first field", self._location)
+        if self._check_names:
+            # Checks only know about the fields declared before them.
+            raise errors.InterfaceError("field must be specified before first check", self._location)
 
         # Assert that the various lists and maps related to fields are in a consistent state.
         # Ideally this would be a class invariant, but this is Python, not Eiffel.
